@@ -273,6 +273,28 @@ func reread(text string, want []byte) outcome {
 		return outcome{"repack", short(text), err.Error()}
 	}
 	if bytes.Equal(p2, want) {
+		// the same text as one line of a zone, followed by another record: both records come out (a
+		// record's parser must stop at the end of its own line)
+		if !strings.Contains(text, "\n") {
+			var got []dns.RR
+			var zerr error
+			if Protect(func() string {
+				zp := dns.NewZoneParser(strings.NewReader(text+"\nsentinel.follow.example.\t7\tIN\tA\t192.0.2.77\n"), "", "")
+				for rr, ok := zp.Next(); ok; rr, ok = zp.Next() {
+					got = append(got, rr)
+				}
+				zerr = zp.Err()
+				return ""
+			}) == "panic" {
+				return outcome{"panic", short(text), "ZoneParser panicked on the record followed by another one"}
+			}
+			if zerr != nil || len(got) != 2 || got[1].Header().Name != "sentinel.follow.example." {
+				return outcome{"follow", short(text), fmt.Sprintf("a zone of this record followed by an A record gives %d records, err=%v", len(got), zerr)}
+			}
+			if pz, err := packRR(got[0]); err != nil || !bytes.Equal(pz, want) {
+				return outcome{"follow", short(text), "the record parsed inside a zone differs from the record parsed alone"}
+			}
+		}
 		return outcome{}
 	}
 	n1, f1, r1, ok1 := splitPacked(want)
